@@ -27,6 +27,9 @@ import SharkVerif.Lemmas.McOptimality
 import SharkVerif.Lemmas.McPerm
 import SharkVerif.Lemmas.McPsd
 import SharkVerif.Lemmas.McObjective
+import SharkVerif.Lemmas.McSolve
+import SharkVerif.Lemmas.McSimplex
+import SharkVerif.Lemmas.McLinearMc
 namespace SharkVerif.C16
 open SharkVerif.Mc SharkVerif.Gen.McTables SharkVerif.McTables
 
@@ -348,5 +351,157 @@ example : ∃ (a : Nat → Rat), Feasible 1 2 a ∧ KKTeps 1 2 0 a (dualGrad 1 (
   · intro v _; norm_num
   · intro v _; simp [dualGrad]
   · intro x; simp; nlinarith [sq_nonneg (x 0)]
+
+/-! ## 6. Whole runs of the decomposition loop `QpSolver::solve` (Model/McSolve.lean) -/
+
+/-- the linear / polynomial-type kernel matrices of the theorems below: Gram matrices of explicit features -/
+def gramK (T : Nat) (φ : Nat → Nat → Rat) (i j : Nat) : Rat := ∑ t ∈ Finset.range T, φ i t * φ j t
+
+theorem gramK_symm (T : Nat) (φ : Nat → Nat → Rat) (i j : Nat) : gramK T φ i j = gramK T φ j i :=
+  Finset.sum_congr rfl fun _ _ => mul_comm _ _
+
+/-- **every state `QpSolver::solve` reaches** on the problem of any formulation family, any class count `c ≥ 2`, any
+data, any accuracy, any iteration limit, with shrinking on or off, satisfies `mc_tables_inv`, `mc_box_inv` and
+`mc_grad_inv` (the working-set selection, the step, the periodic shrinking with its unshrink-at-10·eps rule and the
+stopping rule are all part of the modelled loop) -/
+theorem solve_run_invariants (f : Family) (c n : Nat) (hc : 2 ≤ c) (C : Rat) (hC : 0 ≤ C)
+    (K : Nat → Nat → Rat) (hK : ∀ i j, K i j = K j i) (labels : Nat → Nat) (hl : ∀ i < n, labels i < c)
+    (linMat : Nat → Nat → Rat) (shrinking : Bool) (eps : Rat) (maxIter : Nat) :
+    FullInv (solve { problem f c n C K labels linMat with useShrinking := shrinking } eps maxIter).s :=
+  fullInv_solve _ (fullInv_setShrinking _ (invariants_initially f c n hc C hC K hK labels hl linMat) shrinking) eps maxIter
+
+/-- and from ANY state satisfying the invariants (warm start, bias loop re-entering the solver, adversarial history) -/
+theorem solve_run_invariants_from (s : McBox Rat) (h : FullInv s) (eps : Rat) (maxIter : Nat) :
+    FullInv (solve s eps maxIter).s := fullInv_solve s h eps maxIter
+
+/-- **stop ⇒ KKT(eps)**: if the loop reports `QpAccuracyReached`, all variables are active and the stored gradient,
+which by `mc_grad_inv` is the true gradient `lin − Qα`, is eps-KKT -/
+theorem solve_stop_is_kkt (s : McBox Rat) (h : FullInv s) (eps : Rat) (maxIter : Nat)
+    (hstop : (solve s eps maxIter).stop = .accuracy) :
+    (solve s eps maxIter).s.activeVar = (solve s eps maxIter).s.P * (solve s eps maxIter).s.n ∧
+    KKTeps ((solve s eps maxIter).s.P * (solve s eps maxIter).s.n) (solve s eps maxIter).s.C eps
+      (solve s eps maxIter).s.alpha (solve s eps maxIter).s.grad := solve_stop_kkt s h eps maxIter hstop
+
+/-- **stop ⇒ KKT(eps) ⇒ objective gap, end to end, for the generated problems** (`Q = M ⊗ K`, `M` generated from
+CSvmTrainer.h, `K` a Gram matrix): whatever the configuration, if `QpSolver::solve` reports `QpAccuracyReached` then
+the dual variables it leaves — read in the ORIGINAL numbering of the problem through the renumbering `τ` built up by
+the shrinking operations — are feasible and within `eps·(P·n)·C` of every feasible point of the formulation's dual. -/
+theorem solve_generated_near_optimal (f : Family) (c n : Nat) (hc : 2 ≤ c) (C : Rat) (hC : 0 ≤ C)
+    (T : Nat) (φ : Nat → Nat → Rat) (labels : Nat → Nat) (hl : ∀ i < n, labels i < c)
+    (linMat : Nat → Nat → Rat) (shrinking : Bool) (eps : Rat) (maxIter : Nat)
+    (hstop : (solve { problem f c n C (gramK T φ) labels linMat with useShrinking := shrinking } eps maxIter).stop = .accuracy) :
+    ∃ τ : Nat → Nat, (∀ v < f.P c * n, τ v < f.P c * n) ∧
+      Feasible (f.P c * n) C
+        (fun v => (solve { problem f c n C (gramK T φ) labels linMat with useShrinking := shrinking } eps maxIter).s.alpha (τ v)) ∧
+      ∀ b, Feasible (f.P c * n) C b →
+        dualObj (f.P c * n) (problem f c n C (gramK T φ) labels linMat).lin (problem f c n C (gramK T φ) labels linMat).Q b
+          - dualObj (f.P c * n) (problem f c n C (gramK T φ) labels linMat).lin (problem f c n C (gramK T φ) labels linMat).Q
+              (fun v => (solve { problem f c n C (gramK T φ) labels linMat with useShrinking := shrinking } eps maxIter).s.alpha (τ v))
+          ≤ eps * (f.P c * n : Nat) * C :=
+  solve_stop_near_optimal { problem f c n C (gramK T φ) labels linMat with useShrinking := shrinking }
+    (fullInv_setShrinking _ (invariants_initially f c n hc C hC _ (gramK_symm T φ) labels hl linMat) shrinking)
+    (generated_Q_psd f c n hc C T φ labels hl linMat) eps maxIter hstop
+
+/-- **configuration invariance of the decomposition solver, end to end**: shrinking on/off and the iteration limits
+do not matter — any two runs on the same generated problem that report `QpAccuracyReached` have dual objectives
+(of the one original dual) within `eps·(P·n)·C`.  The kernel cache does not enter: the model reads `K` as a function
+(that a cache of any admissible size returns exactly these entries is property C09); a reordering of the examples
+is the renaming `perm_examples_equivariant`. -/
+theorem solve_generated_configuration_invariant (f : Family) (c n : Nat) (hc : 2 ≤ c) (C : Rat) (hC : 0 ≤ C)
+    (T : Nat) (φ : Nat → Nat → Rat) (labels : Nat → Nat) (hl : ∀ i < n, labels i < c)
+    (linMat : Nat → Nat → Rat) (eps : Rat) (sh1 sh2 : Bool) (m1 m2 : Nat)
+    (h1 : (solve { problem f c n C (gramK T φ) labels linMat with useShrinking := sh1 } eps m1).stop = .accuracy)
+    (h2 : (solve { problem f c n C (gramK T φ) labels linMat with useShrinking := sh2 } eps m2).stop = .accuracy) :
+    ∃ τ1 τ2 : Nat → Nat,
+      |dualObj (f.P c * n) (problem f c n C (gramK T φ) labels linMat).lin (problem f c n C (gramK T φ) labels linMat).Q
+          (fun v => (solve { problem f c n C (gramK T φ) labels linMat with useShrinking := sh1 } eps m1).s.alpha (τ1 v))
+        - dualObj (f.P c * n) (problem f c n C (gramK T φ) labels linMat).lin (problem f c n C (gramK T φ) labels linMat).Q
+          (fun v => (solve { problem f c n C (gramK T φ) labels linMat with useShrinking := sh2 } eps m2).s.alpha (τ2 v))|
+        ≤ eps * (f.P c * n : Nat) * C :=
+  solve_configuration_invariant (problem f c n C (gramK T φ) labels linMat)
+    (invariants_initially f c n hc C hC _ (gramK_symm T φ) labels hl linMat)
+    (generated_Q_psd f c n hc C T φ labels hl linMat) eps sh1 sh2 m1 m2 h1 h2
+
+/-- non-vacuity of the hypothesis `stop = accuracy`: MMR table, one example, `K = 1`, `C = 1`, accuracy 2: the first
+pass sees the violation `1 < 2`, unshrinks, re-checks and stops -/
+example : (solve (problem .MMR 2 1 1 (fun _ _ => 1) (fun _ => 0) (fun _ _ => 1)) 2 1).stop = .accuracy := by
+  simp [solve, solveLoop, solveBody, McBox.selectWorkingSetFrom, McBox.selectFirst, problem, McBox.init,
+    McBox.unshrink, McBox.checkKKT, McBox.maxViolation, McBox.numVars, Family.P, List.range_succ, cmax]
+  norm_num
+  simp
+
+/-! ## 7. The simplex-constrained decomposition `QpMcSimplexDecomp` (CS, ATM, ADM, MMR; Model/McSimplex.lean) -/
+
+/-- the problem `QpMcSimplexDecomp(kernel, M, labels, linear, C)` for a generated table -/
+def simplexProblem (f : Family) (c n : Nat) (C : Rat) (K : Nat → Nat → Rat) (labels : Nat → Nat)
+    (linMat : Nat → Nat → Rat) : McSx Rat :=
+  McSx.init c (f.P c) n C (fun r => (f.M c).row r) K labels linMat
+
+theorem simplex_invariants_initially (f : Family) (c n : Nat) (hc : 2 ≤ c) (C : Rat) (hC : 0 ≤ C)
+    (K : Nat → Nat → Rat) (hK : ∀ i j, K i j = K j i) (labels : Nat → Nat) (hl : ∀ i < n, labels i < c)
+    (linMat : Nat → Nat → Rat) : SxInv (simplexProblem f c n C K labels linMat) := by
+  have hP : 0 < f.P c := by cases f <;> simp [Family.P] <;> omega
+  exact sxInv_init c (f.P c) n C hC _ K labels linMat hP
+    (fun r => M_rows_wellformed f c hc r)
+    (fun y p y' p' hy hy' hp hp' => generated_M_symmetric f c hc y p y' p' hy hy' hp hp')
+    hK hl
+
+/-- **mc_simplex_inv** (with the tables and gradient invariants) for EVERY state that
+`QpSolver<QpMcSimplexDecomp>::solve` reaches: `α ≥ 0`, `0 ≤ varsum_i ≤ C`, `Σ_p α_{i,p} ≤ C + 1e-14` — the
+constraint of the formulation up to the slack the code's own snapping of `varsum` to `0`/`C` allows (the real code
+does exceed `C` by an ulp: observed `2.0000000000000004` for `C = 2`), the example/variable tables stay mutually
+inverse and the stored gradient of the active variables is `lin − Qα`; every family, `c ≥ 2`, any data, any
+accuracy / iteration limit, shrinking on or off. -/
+theorem simplex_run_invariants (f : Family) (c n : Nat) (hc : 2 ≤ c) (C : Rat) (hC : 0 ≤ C)
+    (K : Nat → Nat → Rat) (hK : ∀ i j, K i j = K j i) (labels : Nat → Nat) (hl : ∀ i < n, labels i < c)
+    (linMat : Nat → Nat → Rat) (eps : Rat) (maxIter : Nat) :
+    SxInv (solveX (simplexProblem f c n C K labels linMat) eps maxIter).s :=
+  sxInv_solveX _ (simplex_invariants_initially f c n hc C hC K hK labels hl linMat) eps maxIter
+
+/-- the sum constraint in the form the formulation states it -/
+theorem simplex_sum_constraint (s : McSx Rat) (h : SxInv s) (e : Nat) (he : e < s.b.n) :
+    (∀ p < s.b.P, 0 ≤ s.b.alpha ((s.b.ex e).var p)) ∧
+    ∑ p ∈ Finset.range s.b.P, s.b.alpha ((s.b.ex e).var p) ≤ s.b.C + (1.e-14 : Rat) :=
+  ⟨fun p hp => h.simplex.nonneg _ (h.tables.var_lt e he p hp), h.simplex.sum_le e he⟩
+
+/-- every operation a client can perform preserves the invariants (`updateSMO` in its three cases — one variable,
+two variables of one example via the triangle sub-solver, two variables of different examples via the box
+sub-solver with the bounds `C − varsum + α` —, `deactivateVariable` with the automatic `deactivateExample`,
+`shrink`, `unshrink`, `addDeltaLinear`) -/
+theorem simplex_ops_preserve (s : McSx Rat) (h : SxInv s) :
+    (∀ v w, v < s.b.activeVar → w < s.b.activeVar → SxInv (s.updateSMO v w)) ∧
+    (∀ v, v < s.b.activeVar → SxInv (s.deactivateVariable v)) ∧
+    (∀ eps, SxInv (s.shrink eps).1) ∧ SxInv s.unshrink ∧ (∀ d, SxInv (s.addDeltaLinear d)) :=
+  ⟨fun v w hv hw => sxInv_updateSMO s h v w hv hw, fun v hv => sxInv_deactivateVariable s h v hv,
+    fun eps => sxInv_shrink s h eps, sxInv_unshrink s h, fun d => sxInv_addDeltaLinear s h d⟩
+
+/-- **stop ⇒ KKT(eps)** for the simplex problem -/
+theorem simplex_stop_is_kkt (s : McSx Rat) (h : SxInv s) (eps : Rat) (maxIter : Nat)
+    (hstop : (solveX s eps maxIter).stop = .accuracy) :
+    (solveX s eps maxIter).s.b.activeVar = (solveX s eps maxIter).s.b.P * (solveX s eps maxIter).s.b.n ∧
+    KKTsx (solveX s eps maxIter).s eps := solveX_stop_kkt s h eps maxIter hstop
+
+/-- non-vacuity: the invariant is satisfiable with a non-trivial state (fresh CS problem, 3 classes, 2 examples) -/
+example : SxInv (simplexProblem .WWCS 3 2 1 (fun i j => if i = j then 1 else 0) (fun i => i) (fun _ _ => 1)) :=
+  simplex_invariants_initially .WWCS 3 2 (by omega) 1 (by norm_num) _ (by intro i j; by_cases h : i = j <;> simp [h, eq_comm])
+    _ (by intro i hi; omega) _
+
+/-! ## 8. The dedicated multi-class linear solvers `QpMcLinear*` (Model/McLinearMc.lean) -/
+
+/-- **mc_linear_w_inv / mc_linear_feasible / mc_linear_gain_nonneg** for the box-type formulations (WW, LLW, ATS,
+MMR, reinforced): along EVERY schedule of per-example steps from the zero start — whatever the ACF preferences, the
+random shuffling or shrinking of the epoch loop produce — the weight vectors are the formulation's linear map of the
+dual variables (`w_c = Σ_i coef(F, y_i, α_i)_c · x_i`), `0 ≤ α ≤ C`, and the gain `solveSub` returns for the next
+step is non-negative. -/
+theorem mc_linear_invariants (F : McForm) (hF : F.simplex = false) (D : MlData Rat) (hC : 0 ≤ D.C)
+    (sched : List Nat) (hs : ∀ i ∈ sched, i < D.n) :
+    MlWInv F D (mlSweep F D mlInit sched) ∧ MlBoxInv D (mlSweep F D mlInit sched) ∧
+    ∀ i < D.n, 0 ≤ (mlStep F D (mlSweep F D mlInit sched) i).2.1 :=
+  ⟨mc_linear_w_inv F hF D hC sched hs, mc_linear_feasible F hF D hC sched hs,
+    fun i hi => mc_linear_gain_nonneg F hF D hC sched hs i hi⟩
+
+/-- non-vacuity: the five formulations covered -/
+example : ∀ F ∈ [McForm.WW, .LLW, .ATS, .MMR, .RS], F.simplex = false := by
+  intro F hF; simp at hF; rcases hF with rfl | rfl | rfl | rfl | rfl <;> rfl
 
 end SharkVerif.C16
